@@ -5,7 +5,8 @@ obligations `table:*` (hand-written typing/emission model = tables regenerated f
 tree's compiler, completely enumerated).
 Correspondence / search: one-expression probe programs run on the code built from /repo's
 current tree.  The property is about the language's numbers whatever the syntactic form of an
-operand, so every (operator, type pair, value pair) case is evaluated in ALL OPERAND FORMS:
+operand, so every (operator, type pair, value pair) case is evaluated in ALL OPERAND FORMS
+(type pairs over int, long, float, double and item enumerators, which are ints at run time):
   var-var   both operands in variables (nothing is reduced: the VM's handlers)
   lit-lit   both operands literal (front/constred.c reduces the whole expression)
   lit-var / var-lit   one literal operand (the inserted conversion of the literal is reduced)
@@ -54,6 +55,7 @@ def trap_key(tree):
 BOUNDARY = {
     "b": [0, 1],
     "i": [al.INT_MIN, -16, al.INT_MAX, -1, 16777217, -2147483647, 2 ** 30, 0],
+    "e": [al.INT_MIN, -16, al.INT_MAX, -1, 7, 0],
     "l": [5000000000, -3000000000, 2 ** 32, 2 ** 31, 2 ** 53 + 1, 2 ** 60 + 2 ** 36 + 1, al.LONG_MIN,
           -(2 ** 60 + 2 ** 36 + 1), -16, al.LONG_MAX, 2 ** 32 + 1, -(2 ** 31) - 1],
     "f": [0x00000001, 0x807FFFFF, 0x4F000000, 0x5F000000, 0x4B800001, 0x7F7FFFFF, 0x80000000, 0x3F800001],
@@ -77,8 +79,8 @@ def build_expr_cases(ctx, per_cell, deep):
     # operator x admitted numeric type pair x values (boundary list + corner-biased + random)
     for op in ac.BINSYM:
         for (ka, kb) in ac.admitted_pairs(op):
-            if "e" in (ka, kb):
-                continue        # enum operands belong to C10's quantifier
+            # an item enumerator operand is its int index (typed int since /repo 2ca194c): the
+            # (enum, int), (int, enum), (enum, enum) cells are int operations like any other
             n = per_cell if (ka in NUMK and kb in NUMK) else max(4, per_cell // 4)
             ba, bb = BOUNDARY[ka], BOUNDARY[kb]
             off = rng.randrange(len(ba) * len(bb))
@@ -95,10 +97,10 @@ def build_expr_cases(ctx, per_cell, deep):
                 elif k == n - 1:
                     va, vb = ba[off % len(ba)], (bb[off // len(ba)] if op not in ("shl", "shr") else vb)
                 if op in ("div", "mod") and k == 0:
-                    va, vb = ({"i": al.INT_MIN, "l": al.LONG_MIN}.get(ka, va),
-                              -1 if kb in "il" else vb)
+                    va, vb = ({"i": al.INT_MIN, "l": al.LONG_MIN, "e": al.INT_MIN}.get(ka, va),
+                              -1 if kb in "ile" else vb)
                 if op in ("div", "mod") and k == 1:
-                    vb = 0 if kb in "il" else {"f": 0x80000000, "d": 0}[kb]
+                    vb = 0 if kb in "ile" else {"f": 0x80000000, "d": 0}[kb]
                 add("b", ("B", op, ac.atom(ac.value_tree(ka, va)), ac.atom(ac.value_tree(kb, vb))))
                 dist["binary:%s" % op] += 1
     for op, kinds in (("neg", NUMK), ("bnot", ["i", "l"]), ("not", ["b"])):
